@@ -23,7 +23,7 @@ Definition is_chardata (t : ntype) : bool :=
   match t with TText | TCData | TComment => true | _ => false end.
 
 (** DOMException codes that the modelled operations raise; E_INTERNAL marks exhausted fuel (never reached) *)
-Inductive exc := INDEX_SIZE | HIERARCHY | WRONG_DOC | INVALID_CHAR | NO_MOD | NOT_FOUND | NOT_SUPPORTED | NAMESPACE | E_INTERNAL.
+Inductive exc := INDEX_SIZE | HIERARCHY | WRONG_DOC | INVALID_CHAR | NO_MOD | NOT_FOUND | NOT_SUPPORTED | NAMESPACE | INUSE | E_INTERNAL.
 Inductive result := ROk | RNode (i : id) | RStr (s : str) | RErr (e : exc) | RSkip.
 Definition is_err (r : result) : bool := match r with RErr _ => true | _ => false end.
 
@@ -94,6 +94,9 @@ Inductive op :=
 | OSetAttr (e : id) (nm v : str)
 | ORemoveAttr (e : id) (nm : str)
 | OGetAttr (e : id) (nm : str)
+| OSetAttrNode (e a : id)                (* setAttributeNode: the replaced Attr or null *)
+| ORemoveAttrNode (e a : id)             (* removeAttributeNode *)
+| OGetAttrNode (e : id) (nm : str)       (* getAttributeNode *)
 | ORename (doc n : id) (ns nm : str)      (* Document.renameNode(n, namespaceURI, qualifiedName); ns = [] is null *).
 
 
@@ -112,3 +115,7 @@ Definition ns_bind (is_attr : bool) (ns qname : str) : option str :=
     else if is_attr && str_eqb p s_xmlns then (if str_eqb ns xmlns_uri then Some xmlns_uri else None)
     else match ns with [] => None | _ => Some ns end
   end.
+
+(** the local part of a qualified name (the whole name when there is no colon) *)
+Definition local_name (q : str) : str :=
+  match qname_index q with Some (S i) => skipn (S (S i)) q | _ => q end.
